@@ -711,6 +711,55 @@ theorem history_native_bits (rows cols n : Nat) (hN : 0 < rows * cols) (pd0 : Li
     omega
   exact memory_frame_is_slice s.pd rows cols n i hi hle'
 
+
+/-- 0-based indices address the same frames as 1-based numbers on the lazy path as well -/
+theorem index_eq_number_lazy (pd : List Nat) (rows cols samples N k : Int) :
+    lazyFrameBits pd rows cols samples N k true = lazyFrameBits pd rows cols samples N (k + 1) false := by
+  unfold lazyFrameBits Skel.frameBits Skel.index
+  have : stdFrameIndex k true N = stdFrameIndex (k + 1) false N := by
+    unfold stdFrameIndex; grind (splits := 40)
+  simp only [singleSkel, singleStdArgs, singleRawArgs, singleDecodeIndex, bind, Except.bind]
+  rw [this]
+
+/-- **... and for a lazily read native 1-bit image** (nothing replaces its pixel data; the whole array, once assembled from the
+file, is kept): whatever single fetches, batches in any order, refused requests, whole-array accesses and writes into results
+came before, frame `i + 1` is slice `i` of the file's pixel data (tie C: a third of the `history` stream runs on lazily read
+objects, with multi-element batches) -/
+theorem history_native_bits_lazy (rows cols n : Nat) (hN : 0 < rows * cols) (pd : List Nat) (ops : List Op)
+    (hrep : ∀ op ∈ ops, ∀ q, op ≠ .replace q)
+    (sk : Skel) (hsk : sk = singleSkel ∨ sk = batchSkel) (i : Nat) (hi : i < n) (hlen : n * (rows * cols) ≤ 8 * pd.length) :
+    let one := fun pd k ai => lazyFrameBits pd rows cols 1 n k ai
+    let all : List Nat → Except ErrKind (List (List Bool)) := fun pd =>
+      if n * (rows * cols) ≤ 8 * pd.length then .ok ((List.range n).map (sliceBits pd (rows * cols))) else .error .value
+    (fetchStep one all n sk (run one all n ⟨pd, none⟩ ops) ((i : Int) + 1) false).2 = .ok (sliceBits pd (rows * cols) i) := by
+  intro one all
+  have hinv0 : Inv all (⟨pd, none⟩ : Img (List Bool)) := by intro src fr h; cases h
+  have hpd := run_pd one all n ⟨pd, none⟩ ops hinv0 hrep
+  have hagree : ∀ pd' fr, all pd' = .ok fr → fr.length = n ∧ ∀ j (hj : j < fr.length), one pd' ((j : Int) + 1) false = .ok fr[j] := by
+    intro pd' fr h
+    simp only [all] at h
+    split at h
+    · rename_i hle
+      injection h with h
+      subst h
+      refine ⟨by simp, ?_⟩
+      intro j hj
+      simp at hj
+      have hle' : (j + 1) * (rows * cols) ≤ 8 * pd'.length := by
+        have : (j + 1) * (rows * cols) ≤ n * (rows * cols) := Nat.mul_le_mul_right _ hj
+        omega
+      simp [one, lazy_frame_is_slice pd' rows cols n j hN hj hle']
+    · cases h
+  have hdec : all (run one all n ⟨pd, none⟩ ops).pd = .ok ((List.range n).map (sliceBits pd (rows * cols))) := by
+    rw [hpd]; simp [all, hlen]
+  have := fetch_after_any_history one all n hagree (fun pd' k => index_eq_number_lazy pd' rows cols 1 n k)
+    (fun pd' k ai h => (memory_frame_rejected pd' rows cols 1 n k ai h).2) ⟨pd, none⟩ hinv0 ops sk hsk ((i : Int) + 1) false _ hdec
+  rw [this, hpd]
+  have hle' : (i + 1) * (rows * cols) ≤ 8 * pd.length := by
+    have : (i + 1) * (rows * cols) ≤ n * (rows * cols) := Nat.mul_le_mul_right _ hi
+    omega
+  exact lazy_frame_is_slice pd rows cols n i hN hi hle'
+
 /-- non-vacuity: fetch, cache the whole array, replace the pixel data (two 1x4 frames swapped), fetch through the batch
     method: the answer comes from the new data -/
 example :
